@@ -227,7 +227,7 @@ func run(c Case) (res *h.Result) {
 	}
 	forward, redefSub := false, false
 	var oldPrec []string
-	oldOf := ""
+	oldOf, oldSub := "", ""
 	for _, f := range c.Forms {
 		redef := r.w.Defined(f.C)
 		if redef {
@@ -260,6 +260,18 @@ func run(c Case) (res *h.Result) {
 					oldOf = f.C
 				}
 			}
+			// an instance of a subclass made before the redefinition: its class is the same class afterwards, merged
+			// again, so the instance follows the new precedence list
+			oldSub = ""
+			for _, sub := range subclassesOf(r.w, f.C) {
+				if r.w.Complete(sub) {
+					if o := r.lisp("(make-instance '%s)", r.cn(sub)); o.Kind == ev.Value {
+						r.scope.Let(slip.Symbol("old-sub-instance"), o.Val)
+						oldSub = sub
+					}
+					break
+				}
+			}
 		}
 		for _, s := range f.Sup {
 			if !r.w.Defined(s) {
@@ -273,6 +285,17 @@ func run(c Case) (res *h.Result) {
 		}
 		r.w.Define(f)
 		r.lastDef = f.C
+		if redef && oldSub != "" && r.w.Complete(oldSub) {
+			r.label("old-subclass-instance-after-redefinition")
+			prec := r.w.Precedence(oldSub)
+			for _, other := range r.w.Names() {
+				o := r.lisp("(typep old-sub-instance '%s)", r.cn(other))
+				if o.Kind != ev.Value || (sx.Text(o.Val) != "nil") != in(prec, other) {
+					return r.fail(res, fmt.Sprintf("instance of %s made before %s (a superclass): (typep old '%s) => %s, the precedence list of %s is now %v", oldSub, describeForm(f), other, o, oldSub, prec))
+				}
+			}
+			oldSub = ""
+		}
 		if redef && oldOf == f.C && oldPrec != nil {
 			r.label("old-instance-after-redefinition")
 			for _, other := range r.w.Names() {
